@@ -14,6 +14,10 @@ import os
 targets = ["Props/%s.vo" % p for p in claimed]
 targets += ["Model/%sCheck.vo" % p for p in claimed if os.path.exists("coq/Model/%sCheck.v" % p)]
 ok, log = vlib.make(targets, timeout=3000)
-print(log[-3000:])
+open("setup.log", "w").write(log)
+import re
+errs = [m.group(0) for m in re.finditer(r'File "[^"]+", line \d+[^\n]*\n(?:[^\n]*\n){0,8}', log) if "Error" in m.group(0)]
+print("\n".join(errs[:5]) if errs else log[-1500:])
+print("setup:", "ok" if ok else "FAILED (see setup.log)")
 sys.exit(0 if ok else 1)
 PY
